@@ -653,8 +653,8 @@ Qed.
 (* [composes r nv F dec]: the transformation succeeded, the result has exactly nv
    variables, all its literals are within 1..nv, and an assignment of the new
    variables satisfies it exactly when the induced assignment satisfies F *)
-Definition composes (r : sres (Z * cnf)) (nv : Z) (F : cnf) (dec : (Z -> bool) -> Z -> bool) : Prop :=
-  exists out, r = SOk (nv, out) /\ lits_in_range nv out = true /\
+Definition composes (r : tres (Z * cnf)) (nv : Z) (F : cnf) (dec : (Z -> bool) -> Z -> bool) : Prop :=
+  exists out, r = TOk (nv, out) /\ lits_in_range nv out = true /\
               forall a, cnf_sat a out = cnf_sat (dec a) F.
 
 Lemma lin_of_range N F : lits_in_range N F = true -> cnf_lits (lin N) F.
@@ -675,7 +675,7 @@ Proof.
   - intros a. apply (apply_subst_sem a (dec a) g N F); [|assumption]. intros l Hl _. now apply Hsem.
 Qed.
 
-Theorem block_subst_rejects N k F g : k < 1 -> block_subst N k F g = SValueErr.
+Theorem block_subst_rejects N k F g : k < 1 -> block_subst N k F g = TValueErr.
 Proof. intros H. unfold block_subst. now replace (k <? 1) with true by lia. Qed.
 
 
@@ -719,7 +719,7 @@ Proof.
 Qed.
 
 Theorem formula_lifting_correct N k F (Hk : 1 <= k) (HN : 0 <= N) (HF : lits_in_range N F = true) :
-  exists out, formula_lifting N k F = SOk (2 * k * N, out) /\
+  exists out, formula_lifting N k F = TOk (2 * k * N, out) /\
               lits_in_range (2 * k * N) out = true /\
               forall a, cnf_sat a out = selectors_ok N k a && cnf_sat (dec_lift k a) F.
 Proof.
@@ -764,12 +764,12 @@ Proof.
 Qed.
 
 Theorem variable_compression_rejects N F R adj fn :
-  len adj <> N \/ fn = CompOther -> variable_compression N F R adj fn = SValueErr.
+  len adj <> N \/ fn = CompOther -> variable_compression N F R adj fn = TValueErr.
 Proof.
   intros [H| ->]; [|reflexivity]. unfold variable_compression.
   replace (negb (len adj =? N)) with true by lia. now destruct fn.
 Qed.
-Theorem formula_lifting_rejects N k F : k < 1 -> formula_lifting N k F = SValueErr.
+Theorem formula_lifting_rejects N k F : k < 1 -> formula_lifting N k F = TValueErr.
 Proof. intros H. unfold formula_lifting. now replace (k <? 1) with true by lia. Qed.
 
 (* ---------- polarity flip ---------- *)
